@@ -14,6 +14,7 @@ import (
 	"fmt"
 	"os"
 	"runtime"
+	"sync/atomic"
 	"time"
 )
 
@@ -205,19 +206,44 @@ func Run(cfg Config, body func()) *Result {
 	s.cur = t
 	S = s
 	resetRegistries()
-	var wd *time.Timer
 	if cfg.Watchdog > 0 {
-		wd = time.AfterFunc(cfg.Watchdog, watchdogFire)
+		if atomic.CompareAndSwapInt64(&wdLimit, 0, int64(cfg.Watchdog/time.Second)) {
+			go watchdogLoop()
+		}
+		atomic.AddInt64(&wdGen, 1) // odd: an execution is in progress
 	}
 	go threadMain(t)
 	<-s.finished
-	if wd != nil {
-		wd.Stop()
+	if cfg.Watchdog > 0 {
+		atomic.AddInt64(&wdGen, 1)
 	}
 	s.res.Threads = len(s.threads)
 	s.res.Ops = s.seq
 	S = nil
 	return s.res
+}
+
+// The watchdog counts one-second wake-ups during which one and the same execution was in
+// progress, instead of arming one long timer per execution: a jump of the clock (the virtual
+// machine frozen for a snapshot, a suspended process) then costs one tick, not the whole
+// allowance. (A single time.AfterFunc(120 s) fired in every worker at once when the sandbox
+// was copied for `vp check` during a thorough run: exit 2 on code that was merely paused.)
+var wdGen, wdLimit int64
+
+func watchdogLoop() {
+	last, ticks := int64(-1), int64(0)
+	for {
+		time.Sleep(time.Second)
+		g := atomic.LoadInt64(&wdGen)
+		if g != last || g%2 == 0 {
+			last, ticks = g, 0
+			continue
+		}
+		ticks++
+		if ticks >= atomic.LoadInt64(&wdLimit) {
+			watchdogFire()
+		}
+	}
 }
 
 func watchdogFire() {
